@@ -192,4 +192,9 @@ theorem replies_go_to_the_sender (E : Env) (h : Header) (c : Ctx) (hm : h.msg â‰
   | feed => simp
   | broadcast => simp
 
+/-- what this property means by "active": Alive or Suspect, never Down â€” over the `is_active` the translator
+    reads from `member.rs` (an obligation of this property since the model follows the source) -/
+theorem active_is_alive_or_suspect (st : St) : Gen.isActive st = (st != .down) := by
+  cases st <;> rfl
+
 end Foca.C19
